@@ -1,4 +1,4 @@
-// Standalone reproducers (no harness) of the defects repaired by fixes/bool-1 .. bool-7.
+// Standalone reproducers (no harness) of the defects repaired by fixes/bool-1 .. bool-8.
 //   g++ -std=c++11 -O1 -w -I<tree>/include -I<build>/include -I<tree>/tests bool-repro.cpp <build>/libCrab.a -lgmp
 // Prints one line per defect: DEFECT (the unsound answer is observed) or ok.  Exit status =
 // number of defects observed.
@@ -104,6 +104,15 @@ int main() {
     d.assign_bool_var(b3, b2, true);
     d.assume_bool(b3, false);
     report("bool-7  b2:=ite(b0,b1,false); b3:=not b2; assume b3  => x>=1", !contains(d, x, -1), d);
+  }
+  {  // bool-8: b0 := false ; b1 := (x<=0) ; b2 := true ; b0 := ite(b0,b1,b2) ; assume(b0)   [store x=7: b1=0, b0 := b2 = 1]
+    dom_t d;
+    d.assign_bool_cst(b0, z_lin_cst_t::get_false());
+    d.assign_bool_cst(b1, z_lin_cst_t(z_lin_exp_t(x) <= z_number(0)));
+    d.assign_bool_cst(b2, z_lin_cst_t::get_true());
+    d.select_bool(b0, b0, b1, b2);
+    d.assume_bool(b0, false);
+    report("bool-8  b0:=false; b1:=(x<=0); b2:=true; b0:=ite(b0,b1,b2); assume b0  => x<=0", !contains(d, x, 7), d);
   }
   return bad;
 }
